@@ -54,6 +54,28 @@ pub fn scan(res: &RunResult<Vec<bool>>, judged: &[usize], three: bool) -> (usize
         windows.insert(p.val.to_le_bytes());
         windows.insert(p.val.to_be_bytes());
     }
+    // values that blind or mask key-dependent data are fresh: inside one message of the OT and
+    // preprocessing phases no non-trivial 128-bit field occurs twice (two equal blinding values
+    // cancel each other)
+    for m in res.msgs.iter().filter(|m| judged.contains(&m.from) && !m.tampered) {
+        if m.label.starts_with("broadcast ") || ["lambda", "output wire shares", "wire shares", "labels", "masked inputs", "preprocessed gates"].contains(&m.label.as_str()) {
+            continue;
+        }
+        if let Some(v) = label_ty(&m.label).and_then(|ty| decode_msg(&m.wire, &ty)) {
+            let mut f = vec![];
+            fields128(&v, &mut f);
+            f.retain(|x| *x != 0 && *x != u128::MAX);
+            // (16-byte strings are listed in both byte orders, as two different values)
+            let mut seen: HashSet<u128> = HashSet::new();
+            let rep = f.iter().find(|x| !seen.insert(**x)).copied();
+            if let Some(x) = rep {
+                let sig = format!("repeated-field|{}", m.label);
+                if !hits.iter().any(|h| h.0 == sig) {
+                    hits.push((sig, format!("the 128-bit value {x:032x} occurs more than once inside the {:?} message #{} that party {} sends to party {}: a blinding / masking value is reused", m.label, m.label_occ, m.from, m.to)));
+                }
+            }
+        }
+    }
     fields.sort();
     fields.dedup();
     let fset: HashSet<u128> = fields.iter().copied().collect();
@@ -115,7 +137,7 @@ pub fn scan(res: &RunResult<Vec<bool>>, judged: &[usize], three: bool) -> (usize
 }
 
 pub fn test_case(c: &Case, ctx: Option<&Ctx>) -> Result<CaseInfo, Fail> {
-    let run = run_attack(&c.attack, &ExecCfg { record_probes: true, step_budget: 3_000_000 });
+    let run = run_attack(&c.attack, &ExecCfg { record_probes: true, step_budget: 3_000_000, slow_sends: false });
     let n = c.attack.base.n();
     let judged: Vec<usize> = if c.honest_only { (0..n).collect() } else { c.attack.honest_parties() };
     // the evaluator must be able to open exactly one row per AND gate and garbler with what it holds
@@ -151,7 +173,7 @@ pub fn test_case(c: &Case, ctx: Option<&Ctx>) -> Result<CaseInfo, Fail> {
 
 pub fn run(tier: Tier, seed: u64) -> i32 {
     let ctx = Ctx::new("C07", tier, seed, "fault_enumeration");
-    ctx.set_rule("pool scan over (i) proptest-generated honest runs (circuits with NOT gates, n in 2..4, all roles; plus circuits of 1001..2300 AND gates whose garbled tables and triples span several batches, n in 2..3) and (ii) the enumerated deviations of the C04 table (incl. every-batch persistent variants and taps) and of the C03 table; pool = every byte any party put on the wire plus the labels the evaluator decrypted (probe); oracle: for every honest party's global key (probe) - not present at any byte offset in either byte order, no two 16-byte windows (all offsets) XOR to it, no three decoded 128-bit fields XOR to it (runs with <= 6000 fields); and the evaluator, trying the labels it holds on the three other rows of every garbled gate (hook), opens none of them; aborted runs count (bytes already sent); non-trivial = the judged party sent keyed values (aBit stage reached)");
+    ctx.set_rule("pool scan over (i) proptest-generated honest runs (circuits with NOT gates, n in 2..4, all roles; plus circuits of 1001..2300 AND gates whose garbled tables and triples span several batches, n in 2..3) and (ii) the enumerated deviations of the C04 table (incl. every-batch persistent variants and taps) and of the C03 table; pool = every byte any party put on the wire plus the labels the evaluator decrypted (probe); oracle: for every honest party's global key (probe) - not present at any byte offset in either byte order, no two 16-byte windows (all offsets) XOR to it, no three decoded 128-bit fields XOR to it (runs with <= 6000 fields); no non-trivial 128-bit field occurs twice inside one untampered message of the OT / preprocessing phases sent by a judged party (a reused blinding or masking value); and the evaluator, trying the labels it holds on the three other rows of every garbled gate (hook), opens none of them; aborted runs count (bytes already sent); non-trivial = the judged party sent keyed values (aBit stage reached)");
     ctx.assume("chance hit probability <= F^3 * 2^-128");
     // (i) honest runs
     let cp = CaseParams { circ: CircParams { n_min: 2, n_max: 4, max_gates: 25, ..Default::default() }, all_scheds: false, caps: vec![0], tmp: false };
